@@ -99,23 +99,23 @@ type RunInfo struct {
 }
 
 type Result struct {
-	Seed     uint64         `json:"seed"`
-	Outcome  string         `json:"outcome"`
-	Key      string         `json:"key,omitempty"`
-	Detail   string         `json:"detail,omitempty"`
-	Steps    int            `json:"steps"`
-	NChoices int            `json:"nchoices"`
-	LogHash  string         `json:"log_hash"`
-	WallUs   int64          `json:"wall_us"`
-	Faults   map[string]int `json:"faults,omitempty"`
-	Probes   map[string]int `json:"probes,omitempty"`
-	Info     RunInfo        `json:"info"`
-	Choices  []int          `json:"choices,omitempty"`
-	Trace    []string       `json:"trace,omitempty"`
-	Known    map[string]int `json:"known,omitempty"`
-	crashed  bool
+	Seed          uint64         `json:"seed"`
+	Outcome       string         `json:"outcome"`
+	Key           string         `json:"key,omitempty"`
+	Detail        string         `json:"detail,omitempty"`
+	Steps         int            `json:"steps"`
+	NChoices      int            `json:"nchoices"`
+	LogHash       string         `json:"log_hash"`
+	WallUs        int64          `json:"wall_us"`
+	Faults        map[string]int `json:"faults,omitempty"`
+	Probes        map[string]int `json:"probes,omitempty"`
+	Info          RunInfo        `json:"info"`
+	Choices       []int          `json:"choices,omitempty"`
+	Trace         []string       `json:"trace,omitempty"`
+	Known         map[string]int `json:"known,omitempty"`
+	crashed       bool
 	shutdownDeath bool
-	stderr   string
+	stderr        string
 }
 
 type ReplayFile struct {
@@ -377,6 +377,7 @@ func runWorker(j job, extraEnv []string, timeout time.Duration) (results []Resul
 	inRun := false
 	done := false
 	hardTimeout := false
+	restarted := false // the run in progress has restarted a node on its stores
 	var provisional *Result
 	var other []string
 	for sc.Scan() {
@@ -392,6 +393,11 @@ func runWorker(j job, extraEnv []string, timeout time.Duration) (results []Resul
 		case 'B':
 			cur, _ = strconv.ParseUint(strings.TrimSpace(rest[2:]), 10, 64)
 			inRun = true
+			restarted = false
+		case 'N':
+			if strings.TrimSpace(rest[2:]) == "restarted" {
+				restarted = true
+			}
 		case 'P':
 			// provisional verdict of the run in progress (emitted before the harness tears the system down)
 			var r Result
@@ -444,6 +450,10 @@ func runWorker(j job, extraEnv []string, timeout time.Duration) (results []Resul
 		key, detail := crashKey(se)
 		if !timer.Stop() && !strings.Contains(se, "panic:") && !strings.Contains(se, "fatal error:") {
 			key, detail = "timeout", "worker killed after "+timeout.String()
+		}
+		if b, _ := j.params["panic_after_restart_is_violation"].(bool); b && restarted && strings.HasPrefix(key, "panic/") {
+			// the engine was restarted on its stores and then panicked: it has not resumed (C10)
+			key, detail = "panicked-after-restart/"+strings.TrimPrefix(key, "panic/"), "after a restart on the same stores the engine panicked:\n"+detail
 		}
 		results = append(results, Result{Seed: cur, Outcome: "crash", Key: key, Detail: detail, crashed: true, stderr: se})
 		return results, ""
@@ -817,7 +827,10 @@ func check(prop, tier string, onlyPart string) int {
 			case "crash":
 				ps.Crashed++
 				ps.CrashClasses[r.Key]++
-				if part.CrashIsViolation {
+				if strings.HasPrefix(r.Key, "panicked-after-restart/") {
+					ps.Violations++
+				}
+				if part.CrashIsViolation || strings.HasPrefix(r.Key, "panicked-after-restart/") {
 					byKey[r.Key] = append(byKey[r.Key], r)
 				}
 			case "violation":
@@ -1123,7 +1136,7 @@ func determinism(prop string, seeds int, onlyPart string) int {
 		j := job{bin: bin, harness: part.Harness, params: params}
 		type rk struct {
 			hash, outcome, key string
-			steps           int
+			steps              int
 		}
 		ref := map[uint64]rk{}
 		diverged := map[uint64]bool{}
